@@ -670,6 +670,7 @@ def check_c07(rep, tier, seed, wd, replay):
     cases = []
     budget = 6000 if tier == "quick" else 200000
     natt = 0
+    per_file = max(150, 2 * budget // max(1, len(files)))
     for fi, f in enumerate(files):
         data = f["file"]
         try:
@@ -680,12 +681,17 @@ def check_c07(rep, tier, seed, wd, replay):
         lo = {"validate": 1, "emitinvalid": emitinv, "cb": ("full", "fullrev")[(fi // 2) % 2], "acrc": 1, "skipmagic": 1 if f["o"]["skipmagic"] else 0}
         f["lo"] = lo
         cases.append({"id": "%s_orig" % f["id"], "file": data, "lopts": lo, "base": f})
+        nfile_cases = 0
         for k, ch in enumerate(d["chunks"]):
             pay_lo = ch["offset"] + ch["length"] - ch["csize"]
             pay_hi = ch["offset"] + ch["length"]
             for desc, nb in flip_variants(r, data, pay_lo, pay_hi, tier):
-                if len(cases) - natt < budget:
-                    cases.append({"id": "%s_k%d_%s" % (f["id"], k, desc), "file": nb, "lopts": lo, "base": f, "chunk": k, "kind": "chunk",
+                # every file gets its share of the budget, and the two modes (error / invalid-chunk token, after which the
+                # caller reads on) alternate from one damaged copy to the next: neither depends on which files come first
+                if len(cases) - natt < budget and nfile_cases < per_file:
+                    nfile_cases += 1
+                    lo_k = dict(lo, emitinvalid=(len(cases) % 2))
+                    cases.append({"id": "%s_k%d_%s" % (f["id"], k, desc), "file": nb, "lopts": lo_k, "base": f, "chunk": k, "kind": "chunk",
                                   "single_byte": desc.startswith("flip"), "comp": ch["compression"], "crc": ch["crc"], "n_inner": ch["n_inner"]})
         for k, a in enumerate(d["attachments"]):
             # attachment content: fields and data (not the record length prefix, not the crc itself); attachments are few and
